@@ -268,6 +268,26 @@ func c03(r *core.Report) {
 				}
 			}
 		}
+		// the data branch split off into a helper only this entry point calls: the guard may sit in the helper
+		// (before the cipher call) or in the entry point (before the call of the helper)
+		if df := sessionDataFn(p, e.fn, e.method); n == 0 && df != e.fn {
+			okIn := core.GuardEdges(df, cut) > 0
+			for _, in := range core.AllInstrs(df) {
+				if c, isC := in.(*ssa.Call); isC && isCipherCall(c.Common(), e.method) {
+					n++
+					if !core.GuardedFromEntry(df, in, cut) {
+						okIn = false
+					}
+				}
+			}
+			okOut := core.GuardEdges(e.fn, cut) > 0
+			for _, ci := range core.CallsToFn(e.fn, df) {
+				if !core.GuardedFromEntry(e.fn, ci.(ssa.Instruction), cut) {
+					okOut = false
+				}
+			}
+			ok = okIn || okOut
+		}
 		r.Check(ok && n > 0, "C03-EARLY", core.FnName(e.fn)+" "+e.method, p.Pos(e.fn.Pos()), "the AEAD is used for application data only when "+e.guard+"() holds", "application data is "+strings.ToLower(e.method)+"ed although "+e.guard+"() does not hold: the session is used before the peer proved its key")
 	}
 	_ = types.Typ
